@@ -246,7 +246,25 @@ func ruleSANIT(w *World, r *Report) {
 					continue
 				}
 				if _, isMk := ia.X.(*ssa.MakeSlice); !isMk {
-					continue
+					// or the element handed to append(relFilePaths, relPath): a store into the
+					// one-element varargs array of an append on a []string
+					isAppendArg := false
+					if arr, ok := ia.X.(*ssa.Alloc); ok && typeStr(st.Val.Type()) == "string" {
+						for _, ref := range referrersOf(arr) {
+							sl, ok := ref.(*ssa.Slice)
+							if !ok {
+								continue
+							}
+							for _, r2 := range referrersOf(sl) {
+								if c, ok := r2.(*ssa.Call); ok && isBuiltinCall(c, "append") != nil && typeStr(c.Type()) == "[]string" {
+									isAppendArg = true
+								}
+							}
+						}
+					}
+					if !isAppendArg {
+						continue
+					}
 				}
 				n5++
 				key := fmt.Sprintf("S5:newEncoder:relpath-store#%d", n5-1)
